@@ -166,14 +166,23 @@ def run(ctx):
         ctx.check("AW" in f.held_before_term(lbb), "R12.3", "%s|waker-lock-held-at-load" % key,
                   "the waker lock is held while the flag is loaded (done() cannot slip between registration and load unobserved)",
                   f.where(lbb), "held=%s" % sorted(f.held_before_term(lbb)))
-        br = bool_branch(f, lt["target"])
-        if not br:
+        # the loaded flag decides: every path through the load branches on that very value, and the status mutex is locked
+        # only after it was observed true
+        lres0 = strip_site(f.origin_call(lbb, lt))
+        thr = [p for p in spaths if any(e.fn is f and e.bb == lbb for e in p.events)]
+        okb = bool(thr) and all(any(a[0] == "bool" and strip_site(a[1]) == lres0 for a in p.atoms) for p in thr)
+        if not okb:
             ctx.bad("R12.3", "%s|flag-branch" % key, "the loaded flag is branched on directly", f.where(lbb))
             continue
-        _, tt, ft = br
-        sb = lt["target"]
-        slocks = [b for b, t in f.calls_to("Mutex::<R, T>::lock") if is_field_of(f.op_origin(t["args"][0]), STATUS)]
-        ctx.check(bool(slocks) and all(f.edge_dominates((sb, tt), b) for b in slocks), "R12.3", "%s|status-read-under-true-edge" % key,
+        oks = True
+        n_sl = 0
+        for p in thr:
+            fa = [a for a in p.atoms if a[0] == "bool" and strip_site(a[1]) == lres0]
+            for e in p.events:
+                if e.generic.endswith("Mutex::<R, T>::lock") and is_field_of(e.args[0], STATUS):
+                    n_sl += 1
+                    oks = oks and fa[0][2] and fa[0][4] < e.seq
+        ctx.check(n_sl >= 1 and oks, "R12.3", "%s|status-read-under-true-edge" % key,
                   "the status is read only after the flag was observed true", f.where(lbb))
         # return values, per path: Ready(x) only with the flag observed true and x read from the status mutex; Pending only
         # with the flag observed false
@@ -196,38 +205,49 @@ def run(ctx):
         ctx.check(readys >= 1 and pendings >= 1, "R12.3", "%s|both-outcomes" % key, "poll has a Ready and a Pending outcome", f.where())
 
     # ---- constructors: Pending <=> flag false --------------------------------------------------
+    # judged per path of every function that returns an acknowledgement it builds (helpers, enum-routed initial states
+    # inlined): the handle aggregate found in the returned value pairs (flag=false, Pending) or (flag=true, final status)
     n_ctor = 0
     pending_sites = []
     for name, f in F.fns.items():
         for b in sorted(f.live_blocks()):
-            for i, s in enumerate(f.blocks[b]["stmts"]):
-                if s["k"] != "assign" or s["rv"]["k"] != "agg":
-                    continue
-                rv = s["rv"]
-                if rv.get("adt", "").endswith("command::CommandStatus") and rv.get("variant") == "Pending":
+            for i, s_ in enumerate(f.blocks[b]["stmts"]):
+                if s_["k"] == "assign" and s_["rv"]["k"] == "agg" and s_["rv"].get("adt", "").endswith("command::CommandStatus") and s_["rv"].get("variant") == "Pending":
                     pending_sites.append((f, b, i))
-                if rv.get("adt") == hname:
-                    e = f.origin_rvalue(rv)
-                    fields = dict(e[3])
-                    # a constructor taking the flag / status as parameters is judged at each of its call sites
-                    insts = [(f, e[3], f.where(b, i))]
-                    if f.kind != "Closure" and mentions(e, lambda s_: s_[0] == "param"):
-                        insts = []
-                        for g, gb, gt in [(g, gb, gt) for n2, g in F.fns.items() for gb, gt in g.calls() if gt.get("rpath") == name and gt["res"] == "item"]:
-                            args = [g.op_origin(a) for a in gt["args"]]
-                            insts.append((g, subst_params(e, args)[3], g.where(gb)))
-                    for g, fs, where in insts:
-                        n_ctor += 1
-                        fields = dict(fs)
-                        fl = fields.get(FLAG)
-                        flag_val = const_of(fl[2][0]) if is_call_to(fl, "Atomic::<bool>::new") else None
-                        st = [x for x in subexprs(fields.get(STATUS)) if x[0] == "agg" and x[1].endswith("command::CommandStatus")]
-                        is_pending = bool(st) and st[0][2] == "Pending"
-                        ctx.check(flag_val is not None and bool(st) and ((flag_val == 0) == is_pending), "R12.5",
-                                  "%s|ctor-pairing" % g.name, "constructor pairs (flag=false, Pending) or (flag=true, final status)",
-                                  where, "flag=%s status=%s" % (flag_val, st[0][2] if st else "?"))
+    ctor_kind = {}       # fn -> set of status variants it can start with
+    short_h = hname.split("::")[-1].replace("Handle", "")
+    for name, f in F.fns.items():
+        rt = f.rec.get("ret") or ""
+        if f.kind == "Closure" or short_h not in rt or rt.startswith("std::result::Result") or rt.startswith("&"):
+            continue
+        ps = ipaths(F, f, stop=lambda n_: False, depth=3)
+        rows = []
+        parametric = False
+        for p in ps:
+            aggs = [x for x in subexprs(p.ret) if x[0] == "agg" and x[1] == hname]
+            if len(aggs) != 1:
+                rows = None
+                break
+            fields = dict(aggs[0][3])
+            fl = fields.get(FLAG)
+            flag_val = const_of(fl[2][0]) if is_call_to(fl, "Atomic::<bool>::new") and fl[2] else None
+            st = [x for x in subexprs(fields.get(STATUS)) if x[0] == "agg" and x[1].endswith("command::CommandStatus")]
+            if flag_val is None or not st:
+                parametric = parametric or mentions(aggs[0], lambda s_: s_[0] == "param")
+                rows.append((None, None))
+            else:
+                rows.append((flag_val, st[0][2]))
+        if not rows:
+            continue
+        if parametric and any(r[0] is None for r in rows):
+            continue          # takes the flag / status as parameters: judged where it is called from
+        n_ctor += 1
+        okp = all(r[0] is not None and ((r[0] == 0) == (r[1] == "Pending")) for r in rows)
+        ctor_kind[name] = {r[1] for r in rows}
+        ctx.check(okp, "R12.5", "%s|ctor-pairing" % name, "constructor pairs (flag=false, Pending) or (flag=true, final status)", f.where(), str(rows))
     ctx.floor("R12.5", "acknowledgement constructors", n_ctor, 3)
-    ctor_fns = {f.name for f, b, i in pending_sites}
+    ctor_fns = {n for n, ks in ctor_kind.items() if ks == {"Pending"}}
+    final_ctor_fns = {n for n, ks in ctor_kind.items() if "Pending" not in ks}
     ctx.check(len(pending_sites) == 1, "R12.5", "pending-constructed-once",
               "CommandStatus::Pending is constructed at exactly one site (the fresh acknowledgement)",
               detail=str([f.where(b, i) for f, b, i in pending_sites]))
@@ -270,9 +290,9 @@ def run(ctx):
                     n_pairs += 1
                     e = f.origin_rvalue(s["rv"])
                     ack = dict(e[3]).get("acknowledgement")
-                    fresh = any(is_call_to(x, "CommandAcknowledgement::new") for x in subexprs(ack)) and not any(
-                        is_call_to(x, "CommandAcknowledgement::accepted", "CommandAcknowledgement::rejected") for x in subexprs(ack))
-                    # the constructor named ::new must be the Pending one
-                    ctx.check(fresh and any(n.endswith("CommandAcknowledgement::new") for n in ctor_fns), "R12.5", "%s|queued-ack-is-fresh" % name,
+                    fresh = any(x[0] == "call" and x[1] in ctor_fns for x in subexprs(ack)) and not any(
+                        x[0] == "call" and x[1] in final_ctor_fns for x in subexprs(ack))
+                    # the acknowledgement queued with a command comes from a constructor that always starts Pending
+                    ctx.check(fresh, "R12.5", "%s|queued-ack-is-fresh" % name,
                               "a queued command carries a clone of a freshly created pending acknowledgement", f.where(b, i), fmt(ack))
     ctx.floor("R12.5", "queued command/acknowledgement pairs", n_pairs, 1)
